@@ -18,7 +18,7 @@ from .abseval import ev, Unknown, Opaque, _BIN
 
 
 class Interp:
-    def __init__(self, call_hook=None, effect_names=(), budget=20000, resolver=None, depth=0):
+    def __init__(self, call_hook=None, effect_names=(), budget=20000, resolver=None, depth=0, store_effects=()):
         """call_hook(call_node, args, env) -> (True, value) | None.  effect_names: callee names whose calls are
         observable effects (recorded with evaluated args)."""
         self.call_hook = call_hook
@@ -27,6 +27,7 @@ class Interp:
         self.steps = 0
         self.nodes = []         # effect statements, referenced by index from environments (kept out of deepcopy)
         self.resolver = resolver    # resolver(call node) -> FunctionDef of a repository helper to interpret in place (same receiver), or None
+        self.store_effects = set(store_effects)   # attribute texts whose assignments are observable effects, recorded in order as ('store', (text, value), node)
         self.depth = depth
 
     # ---------------------------------------------------------------- expressions
@@ -158,7 +159,7 @@ class Interp:
         missing = [p for p in params if p not in e2]
         if missing:
             raise Unknown('call of %s without a value for %s' % (callee.name, missing))
-        sub = Interp(self.call_hook, self.effect_names, self.budget, self.resolver, self.depth + 1)
+        sub = Interp(self.call_hook, self.effect_names, self.budget, self.resolver, self.depth + 1, self.store_effects)
         finals = sub.run(callee.body, e2)
         if len(finals) != 1 or finals[0].get('<forks>'):
             raise Unknown('helper %s does not evaluate on a single path here (forks: %s)' % (callee.name, [f.get('<forks>') for f in finals][:2]))
@@ -225,6 +226,9 @@ class Interp:
             return
         if isinstance(target, ast.Attribute):
             env[unparse(target)] = val      # attribute facts are kept by their text (self._field)
+            if unparse(target) in self.store_effects:
+                self.nodes.append(target)
+                env.setdefault('<effects>', []).append(('store', (unparse(target), val), len(self.nodes) - 1))
             return
         if isinstance(target, ast.Subscript):
             try:
@@ -279,6 +283,13 @@ class Interp:
             if isinstance(v, ast.Call):
                 fn = v.func
                 nm = fn.id if isinstance(fn, ast.Name) else (fn.attr if isinstance(fn, ast.Attribute) else None)
+                if self.call_hook is not None and nm not in self.effect_names:
+                    try:
+                        handled = self.call_hook(v, e, self)
+                    except Unknown:
+                        raise
+                    if handled is not None:
+                        return [], [e]
                 if nm in self.effect_names:
                     args = []
                     for a in v.args:
